@@ -959,7 +959,7 @@ impl Ontology {
         // is linked to roughly half of all diseases
         let phenotype_ids: HpoGroup = terms
             .iter()
-            .filter(|term| (term.all_parents() & self.modifier()).is_empty())
+            .filter(|term| ((term.all_parents() | *term.id()) & self.modifier()).is_empty())
             .map(|term| *term.id())
             .collect();
 
